@@ -68,7 +68,7 @@ TLinks == /\ IsEv("links")
           /\ Ev.eq = HeldEqualsBuild(lap', grad', linkQ')
           /\ OpsObs(lap', grad')
 
-TEuler == /\ IsEv("euler") /\ Euler
+TEuler == /\ IsEv("euler") /\ Euler(Ev.retried)
           /\ Ev.fresh = OpsFresh
           /\ OpsObs(lap, grad)
           /\ Ev.term = tv'
